@@ -572,6 +572,7 @@ int main(int argc, char **argv) {
                 }
                 model.max_depth = 40; /* fixpoint expected long before */
                 esx_run(&model);
+        ESX_CYCLES(&model);
             }
     v_finish();
     return (v_sh->viol_count || rc) ? 1 : 0;
